@@ -636,7 +636,13 @@ def method(I, f, args, kwargs, node):
         if name == "append":
             if I.loop_stack and b.kind == "list":
                 L = I.loop_stack[-1]
-                b.items.append(GenList(args[0], L.ivar, L.rng))  # one generated segment per textual append inside a range loop
+                last = b.items[-1] if b.items else None
+                if isinstance(last, GenList) and last.ivar is L.ivar:
+                    # several appends per iteration interleave: [a(0), b(0), a(1), b(1), ...]
+                    grp = last.elem.items if isinstance(last.elem, Tup) and last.elem.kind == "group" else [last.elem]
+                    b.items[-1] = GenList(Tup(grp + [args[0]], "group"), L.ivar, L.rng)
+                else:
+                    b.items.append(GenList(args[0], L.ivar, L.rng))
             else:
                 b.items.append(args[0])
             return None
@@ -689,7 +695,7 @@ def builtin(I, name, args, kwargs, node, env):
             if any(isinstance(i, GenList) for i in x.items):
                 tot = ZERO
                 for i in x.items:
-                    tot = tot + (i.rng.count if isinstance(i, GenList) else ONE)
+                    tot = tot + (i.rng.count * _gsize(i) if isinstance(i, GenList) else ONE)
                 return tot
             return alg.const(len(x.items))
         if isinstance(x, Arr):
@@ -814,6 +820,10 @@ def builtin(I, name, args, kwargs, node, env):
     if name == "dict":
         return Tup([], "dict")
     return Unknown("builtin %s" % name)
+
+
+def _gsize(g):
+    return len(g.elem.items) if isinstance(g.elem, Tup) and g.elem.kind == "group" else 1
 
 
 def _nonneg_int(x):
